@@ -806,7 +806,7 @@ fn failing_expansion_family(ctx: &Ctx) {
 }
 
 pub fn run(ctx: &Ctx) {
-    ctx.set_rule("(A) proptest-generated terminating programs (structured generator: loops, calls, procedures with implied and explicit ret, prints, data, INT 3, trap-flag sequences) extended with macro uses of nesting depth 1 and 2 at top level and inside procedures, rendered with random layouts (blank lines, comment lines, several statements per line, labels sharing a line, with/without trailing newline): every emitted instruction's source-map entry, converted with the driver's own get_err_pos, must give the line number and the exact bounds of the line of its statement (use site for macro-made instructions, closing brace for the implied ret); (B1) the same programs with one token replaced by ')' at a generated token position: the driver's preprocess() must report that line, that 0-based column and that line's text; (B2) the single semantic mutations of C14 whose offending statement is one known line (operand misuse, range, size, two memory operands, unsupported instruction / interrupt / directive, data after code, jump to data label): the diagnostic, in-process and through the CLI, must cite that line and its text; (C) through the CLI with -i or trap-flag stepping answered 'n': every 'Output of line', 'About to execute line', 'Int 3 at line', divide-error and unsupported-interrupt message must cite the line (and the text) of the statement the reference interpreter says is executing; (D) a jump to an undefined label at a live position or on the last line, with generated indentation: line, column and text. Non-trivial = the cited construct is not on line 1.");
+    ctx.set_rule("(A) proptest-generated terminating programs (structured generator: loops, calls, procedures with implied and explicit ret, prints, data, INT 3, trap-flag sequences) extended with macro uses of nesting depth 1 and 2 at top level and inside procedures, rendered with random layouts (blank lines, comment lines, several statements per line, labels sharing a line, with/without trailing newline): every emitted instruction's source-map entry, converted with the driver's own get_err_pos, must give the line number and the exact bounds of the line of its statement (use site for macro-made instructions, closing brace for the implied ret); (B1) the same programs with one token replaced by ')' at a generated token position: the driver's preprocess() must report that line, that 0-based column and that line's text; (B2) the single semantic mutations of C14 whose offending statement is one known line (operand misuse, range, size, two memory operands, unsupported instruction / interrupt / directive, data after code, jump to data label): the diagnostic, in-process and through the CLI, must cite that line and its text; (C) through the CLI with -i or trap-flag stepping answered 'n': every 'Output of line', 'About to execute line', 'Int 3 at line', divide-error and unsupported-interrupt message must cite the line (and the text) of the statement the reference interpreter says is executing; (D) a jump to an undefined label at a live position or on the last line, with generated indentation: line, column and text. Truncated files end right behind the last token, behind a final newline, blank lines or CR LF; macro-made undefined jumps also stand behind a nested use that has ended and between two nested uses. Non-trivial = the cited construct is not on line 1.");
     ctx.assume("for a duplicate definition either definition's line is acceptable (not checked here); a bare unknown word is detected by an LR parser only at the following token, possibly on the next line (not used as a mutant); message wording is not compared beyond line number, column and line text");
     ctx.set_exhaustive(false);
     crate::pt::set_max_shrink_iters(400);
